@@ -82,12 +82,13 @@ BoundaryOf(b) == IF b = 0 THEN 0 ELSE Anc(b, ht[b] - ((ht[b] + 1) % P))
 (***************************************************************************)
 \* one step of the BIP9 state machine at the first block (height h) of a period: s is the state of the previous
 \* period, m the median time past of its last block and cnt the number of its blocks that signalled
-Bip9Next(s, h, m, cnt) ==
-  CASE s = "defined" -> IF m >= dep.start THEN "started" ELSE "defined"
+Bip9Step(s, h, m, cnt, start, timeout) ==
+  CASE s = "defined" -> IF m >= start THEN "started" ELSE "defined"
     [] s = "started" -> IF cnt >= dep.threshold THEN "locked_in"                 \* lock-in has precedence
-                        ELSE IF m >= dep.timeout THEN "failed" ELSE "started"
+                        ELSE IF m >= timeout THEN "failed" ELSE "started"
     [] s = "locked_in" -> IF h >= dep.minh THEN "active" ELSE "locked_in"
     [] OTHER -> s                                                                \* ACTIVE and FAILED are final
+Bip9Next(s, h, m, cnt) == Bip9Step(s, h, m, cnt, dep.start, dep.timeout)
 Bip9Genesis == IF dep.start = ALWAYS_ACTIVE THEN "active" ELSE IF dep.start = NEVER_ACTIVE THEN "failed"
                ELSE "defined"                                                    \* the genesis block is by definition DEFINED
 RECURSIVE Bip9(_)
@@ -95,6 +96,16 @@ Bip9(b) ==
   IF dep.start \in {ALWAYS_ACTIVE, NEVER_ACTIVE} \/ b = 0 THEN Bip9Genesis
   ELSE IF (ht[b] + 1) % P # 0 THEN Bip9(par[b])                 \* not the first block of a period: as its parent
   ELSE Bip9Next(Bip9(par[b]), ht[b] + 1, MTP(b), CountFrom(b, P))
+\* Time is an offset.  BIP9 only compares median times with the start and the timeout, so the states are the same when
+\* every block time, the start and the timeout are moved by the same d (the special start values are not times and stay).
+\* The replay uses this: model time t is realised as Epoch + 600 * t for epochs below, across and above 2^31 and with the
+\* largest block time at 2^32 - 1 (TLC integers are 32 bit, the epochs themselves live in the harness arguments).
+RECURSIVE Bip9Shifted(_, _)
+Bip9Shifted(b, d) ==
+  IF dep.start \in {ALWAYS_ACTIVE, NEVER_ACTIVE} \/ b = 0 THEN Bip9Genesis
+  ELSE IF (ht[b] + 1) % P # 0 THEN Bip9Shifted(par[b], d)
+  ELSE Bip9Step(Bip9Shifted(par[b], d), ht[b] + 1, MTPOf(par, [i \in 1..Len(tm) |-> tm[i] + d], b), CountFrom(b, P),
+                dep.start + d, dep.timeout + d)
 \* height of the first block (on the chain of b, up to the block after b) to which the state applies
 SinceBip9(b) ==
   LET hs == {h \in 0..(H(b) + 1) : h % P = 0 /\ Bip9(Anc(b, h - 1)) = Bip9(b)}
@@ -217,6 +228,7 @@ Spec == Init /\ [][Next]_vars
 S(b) == st[b + 1]                                 \* = Bip9(b), the state of a block whose parent is b
 Special == dep.start \in {ALWAYS_ACTIVE, NEVER_ACTIVE}
 \* the memo variables hold the declarative definitions (inductive: entries never change, ancestors never change)
+ShiftInvariant == \A d \in {7, 100000} : Bip9Shifted(N, d) = st[N + 1]
 MemoOK == st[N + 1] = Bip9(N) /\ snc[N + 1] = SinceBip9(N) /\ Len(st) = N + 1 /\ Len(snc) = N + 1
 
 \* The cached computation is BIP9 from the warm cache, whatever was queried before ...
